@@ -209,6 +209,68 @@ ERROR_TEMPLATES = [
 ]
 
 
+# ------------------------------------------------- run-time failures inside every kind of sub-expression
+
+FAILERS = ["drop drop", "(drop drop, 1)", "(1, drop drop)", "((2, 3) swap drop drop drop)", "[5] elem drop drop", "\"%s%s\"",
+           "(|A B| A)", "swap"]
+FAIL_CONTEXTS = ["1 %s", "1 ?(%s)", "1 !(%s)", "1 (%s == 1)", "1 (1 == %s)", "1 [%s]", "1 let A := %s;", "1 \"%%( %s %%)\"",
+                 "1 if (%s) then 1 else 2", "1 if 1 then (%s) else 2", "1 {%s} apply", "1 ?{%s} apply", "1 (%s)*", "1 (%s)+", "1 (%s)?",
+                 "1 (2, %s)", "1 (%s || 2)", "1 (!() || %s)", "(1, 2) ?((3, 4) %s)", "1 ?(?(%s))", "1 [?((1, 2) %s)]",
+                 "1 (|X| ?(X %s))", "1 let F := {%s}; (F, F)", "(1, 2, 3) (?(== 2) %s, 7)"]
+
+
+def work_runtime_failures(task):
+    """The query is well-formed and fails while it runs (stack underflow), inside every sub-expression context;
+    results before the failure are pulled, the failing pull is made, *and pulled again*, then everything is
+    destroyed: no state may be left constructed, nothing may leak."""
+    lo, hi = task
+    ev = Evidence()
+    drv = Driver()
+    try:
+        for ctx in FAIL_CONTEXTS[lo:hi]:
+            batch = []
+            for f in FAILERS:
+                text = ctx % f
+                batch.append(text)
+                try:
+                    r = drv.parse(text)
+                    if "q" not in r:
+                        ev.label("runtime-failure:rejected")
+                        continue
+                    q = r["q"]
+                    for extra in (0, 1, 3):
+                        x = drv.req("exec %d " % q)
+                        if "r" not in x:
+                            break
+                        rid = x["r"]
+                        failed = False
+                        for _ in range(12):
+                            y = drv.req("next %d 200000" % rid)
+                            if "stack" in y:
+                                continue
+                            failed = "error" in y
+                            break
+                        for _ in range(extra):
+                            drv.req("next %d 200000" % rid)       # pulling again after the failure / the end
+                        drv.req("rdestroy %d" % rid)
+                        ev.case(key=(text, extra), nontrivial=failed)
+                        ev.label("runtime-failure:failed" if failed else "runtime-failure:no-failure")
+                    drv.req("qdestroy %d" % q)
+                except DriverCrash as e:
+                    ev.violations.append(crash_record("runtime-failure", text, e.report))
+                except DriverTimeout:
+                    ev.inconc("watchdog")
+            if not leak_gate(drv, ev, "run-time failures inside `%s`" % ctx, batch):
+                ev.violations[-1]["signature"] += ":" + ctx
+        rc, txt = drv.close()
+        if rc not in (0,):
+            ev.violations.append({"property": PID, "kind": "exit", "reason": "driver exit status %s at orderly shutdown: %s" % (rc, txt[-3000:]),
+                                  "signature": "C13:exit:" + first_repo_frame(txt)})
+    finally:
+        drv.kill()
+    return ev
+
+
 def work_errors(task):
     lo, hi = task
     ev = Evidence()
@@ -326,6 +388,7 @@ def main(tier, seed):
     na = 1200 if tier == "quick" else 30000
     ev.merge(run_pool(work_asets, [(seed, s_, min(60, na - s_)) for s_ in range(0, na, 60)]))
     ev.merge(run_pool(work_named_arith, [(lo, lo + 400) for lo in range(0, 6400, 400)]))
+    ev.merge(run_pool(work_runtime_failures, [(lo, lo + 2) for lo in range(0, len(FAIL_CONTEXTS), 2)]))
     ev.merge(run_pool(work_errors, [(lo, lo + 4) for lo in range(0, len(ERROR_TEMPLATES), 4)]))
     ev.extra["error_templates"] = len(ERROR_TEMPLATES)
     ngen, depth, fuzz_s, fuzz_w = (1600, 3, 45, 12) if tier == "quick" else (40000, 3, 900, 16)
